@@ -29,6 +29,12 @@ LOGCLS = {"BrokenPipeError": "(LIO EPIPE)", "ConnectionResetError": "(LIO ECONNR
 PCLASS = {"gopher": "PCBase", "sgopher": "PCBase", "gopherplus": "PCGopherPlus", "sgopherplus": "PCGopherPlus",
           "http": "PCHttp", "https": "PCHttp", "wap": "PCWap", "gemini": "PCGemini", "spartan": "PCSpartan"}
 REF_RELEASED = ("/mail.mbox", "/arch.zip", ".dat", ".dir", ".bak")   # mailbox, archive, shelve index of the archive
+PROTO_CLASS = {"gopher": "GopherProtocol", "sgopher": "SecureGopherProtocol", "gopherplus": "GopherPlusProtocol",
+               "sgopherplus": "SecureGopherPlusProtocol", "http": "HTTPProtocol", "https": "HTTPSProtocol",
+               "wap": "WAPProtocol", "gemini": "GeminiProtocol", "spartan": "SpartanProtocol"}
+CLASS_PCLASS = {"GopherProtocol": "PCBase", "SecureGopherProtocol": "PCBase", "GopherPlusProtocol": "PCGopherPlus",
+                "SecureGopherPlusProtocol": "PCGopherPlus", "HTTPProtocol": "PCHttp", "HTTPSProtocol": "PCHttp",
+                "WAPProtocol": "PCWap", "GeminiProtocol": "PCGemini", "SpartanProtocol": "PCSpartan"}
 ACT = {"W": "AWrite", "O": "AOpen", "C": "AClose", "R": "AOpenRef", "N": "ANotFound"}
 
 MBOX = ("From alice@example.com Mon Jan  1 00:00:00 2024\nSubject: one\n\nbody one\n\n"
@@ -169,6 +175,11 @@ def live_job(tier):
             for how, before in [("reset", 65536), ("close", 0)] + ([("reset", 0)] if tier != "quick" else []):
                 clients.append({"name": f"{proto}:{sel}:{how}@{before}", "proto": proto, "selector": sel, "data": lat(data),
                                 "tls": tls, "how": how, "read_before": before})
+            if sel == "/" + LIVE_DOC:
+                # the same from 127.0.0.2 while a client from 127.0.0.3 comes and goes (overlapping connections)
+                clients.append({"name": f"{proto}:{sel}:reset@65536:overlapped", "proto": proto, "selector": sel,
+                                "data": lat(data), "tls": tls, "how": "reset", "read_before": 65536,
+                                "source": "127.0.0.2", "overlap": "127.0.0.3"})
     data, tls = gen.request_bytes("gopher", "/" + LIVE_DOC)
     clients.append({"name": "gopher:/big.bin:stall", "proto": "gopher", "selector": "/" + LIVE_DOC, "data": lat(data),
                     "tls": False, "how": "stall", "read_before": 1000})
@@ -198,12 +209,17 @@ def live_oracle(client, c):
         hits.append((f"live-handler-stuck:{client['proto']}", "the handler thread did not finish after the client went away"))
     if not c["records"]:
         hits.append((f"live-not-logged:{client['proto']}", "the abandoned transfer left no EXCEPTION record"))
-    for cls, addr, _ in c["records"]:
+    src = client.get("source", "127.0.0.1")
+    for cls, addr, pname in c["records"]:
         if cls not in CONNECTION_CLASSES:
             hits.append((f"live-logged-as-other-class:{client['proto']}:{cls}",
                          f"the connection failure is logged as {cls}"))
-        if addr != "127.0.0.1":
-            hits.append((f"live-no-client-address:{client['proto']}", "an EXCEPTION record lacks the client address"))
+        if addr != src:
+            hits.append((f"live-wrong-client-address:{client['proto']}",
+                         f"a record of the failure names {addr}; the connection that failed came from {src}"))
+        if pname != PROTO_CLASS[client["proto"]]:
+            hits.append((f"live-wrong-protocol-in-log:{client['proto']}",
+                         f"a record of the failure names protocol {pname}, not {PROTO_CLASS[client['proto']]}"))
     if c.get("children"):
         hits.append((f"live-child-left:{client['proto']}", "child processes of the server are still there after the "
                      "connection: " + ", ".join("%s[%s]" % (x[2], x[1]) for x in c["children"])))
@@ -225,7 +241,7 @@ def coq_case(rq, entry, case):
                            for c, a, _ in (case["records"] or [])) + "]"
     span = "None" if case.get("span") is None else "(Some %d%%nat)" % case["span"]
     return "(((%s, %s), (%s, ((%d%%nat, %s), %s))), (%s, (%s, %d%%nat)))" % (
-        PCLASS[rq["proto"]], "true" if rq["outside"] else "false", acts, case["k"], span, case["cls"],
+        CLASS_PCLASS.get(entry.get("served_by"), PCLASS[rq["proto"]]), "true" if rq["outside"] else "false", acts, case["k"], span, case["cls"],
         "true" if case["exc"] else "false", recs, len(case["fd_gc"]))
 
 
@@ -306,7 +322,11 @@ def run(tier):
             else:
                 if not recs:
                     hit(f"not-logged:{PCLASS[rq['proto']]}", "the failed connection left no EXCEPTION record")
-                for c, addr, _ in recs:
+                served = e.get("served_by") or PROTO_CLASS[rq["proto"]]
+                for c, addr, pname in recs:
+                    if pname != served:
+                        hit(f"wrong-protocol-in-log:{PCLASS[rq['proto']]}",
+                            f"a record of the failure names protocol {pname}, the connection was served by {served}")
                     if c != own and not (own == "TimeoutError" and c == "timeout"):
                         hit(f"logged-as-other-class:{PCLASS[rq['proto']]}:{c}",
                             f"the failure ({own}) is logged as {c}")
